@@ -427,10 +427,6 @@ func (p *Prog) generateOne(fn *ssa.Function, sp *spec.FuncSpec, splits []splitVa
 	bindResults(post, fn.Signature, sp, results)
 	env := &Env{vc: vc, names: post, st: exitSt, old: entry, pkg: pkg, fr: f}
 	for _, c := range ensures {
-		t, err := env.evalBool(c.E)
-		if err != nil {
-			return vc, fmt.Errorf("%s:%d: %v", c.File, c.Line, err)
-		}
 		props := c.Props
 		if len(props) == 0 {
 			props = sp.Props
@@ -438,6 +434,32 @@ func (p *Prog) generateOne(fn *ssa.Function, sp *spec.FuncSpec, splits []splitVa
 		kind := "ensures"
 		if c.Label != "" {
 			kind = "ensures:" + c.Label
+		}
+		if sp != nil && sp.Pathwise && len(f.rets) > 1 {
+			// `pathwise`: the clause is checked at every return on that return's own state (no
+			// if-then-else over the states of the other paths in the heap terms); the obligations of
+			// one clause are numbered in the order of the returns.  Together they are the clause on
+			// the merged exit state.
+			for _, r := range f.rets {
+				rp := map[string]SV{}
+				for k, x := range names {
+					rp[k] = x
+				}
+				bindResults(rp, fn.Signature, sp, r.vals)
+				renv := &Env{vc: vc, names: rp, st: r.st, old: entry, pkg: pkg, fr: f}
+				t, err := renv.evalBool(c.E)
+				if err != nil {
+					return vc, fmt.Errorf("%s:%d: %v", c.File, c.Line, err)
+				}
+				if o := vc.oblige(kind, props, r.guard, t, c.Src, fmt.Sprintf("%s:%d", relFile(c.File), c.Line)); o != nil {
+					o.Clause = c
+				}
+			}
+			continue
+		}
+		t, err := env.evalBool(c.E)
+		if err != nil {
+			return vc, fmt.Errorf("%s:%d: %v", c.File, c.Line, err)
 		}
 		if o := vc.oblige(kind, props, exitReach, t, c.Src, fmt.Sprintf("%s:%d", relFile(c.File), c.Line)); o != nil {
 			o.Clause = c
